@@ -31,6 +31,25 @@
 (* "all but one 64th" rule, the call stipend, the code-deposit charge and   *)
 (* burn-on-failure / keep-on-revert exactly as the code does, so the        *)
 (* exported left-over gas is compared for equality.                         *)
+(*                                                                          *)
+(* Transfer fees (evm.fees / evm.refundFees / evm.feeSaved).  The gas cost  *)
+(* of an operation that moves the native coin (CALL with value,             *)
+(* TRANSFERTOKEN of the native coin, SELFDESTRUCT of a holder) contains a   *)
+(* FEE; the gas function pushes it on `fees`.  interpreter.Run: when the    *)
+(* frame cannot pay the cost, the entry is popped again and - if the frame  *)
+(* could have paid more than the cost without the fee - replaced by that    *)
+(* excess.  opCall: when the callee fails (or is refused) every entry       *)
+(* pushed since the CALL started, the CALL's own included, moves to         *)
+(* `rfees`.  What the invocation finally hands back (app/state_transition)  *)
+(* is leftOverGas + RefundFee() (= sum of rfees) when it succeeded and      *)
+(* leftOverGas + RefundAllFee() (= sum of fees and rfees) when it failed.   *)
+(*                                                                          *)
+(* Call targets that are not in the state yet: the precompiled contracts    *)
+(* (addresses 1..4; absent until first touched) and a fresh plain address.  *)
+(* evm.Call: Snapshot, then - if the target does not exist - either return  *)
+(* at once (no precompile, no value) or CreateAccount, then the transfer,   *)
+(* then the native code (RequiredGas or out of gas; empty code for the      *)
+(* plain address).  `world.ex` = which of these accounts exist.             *)
 (***************************************************************************)
 EXTENDS Integers, Sequences, FiniteSets, TLC, Json, EVMCosts
 
@@ -45,7 +64,9 @@ CONSTANTS MaxOps,        \* bound: abstract ops in a program tree
           CallKinds,     \* subset of {"call", "callcode", "delegate", "static"}
           CallValues,    \* values passed by CALL / CALLCODE
           CallReqs,      \* gas requests of the CALL family (Huge = does not fit 64 bits)
-          CreateValues   \* values passed by CREATE; {} = no CREATE ops
+          CreateValues,  \* values passed by CREATE; {} = no CREATE ops
+          NatTargets     \* subset of 1..5: call targets absent from the pre-state
+                         \* (1..4 = precompiled contract i, 5 = fresh plain address)
 
 Huge == -1
 
@@ -56,8 +77,12 @@ O == 1
 E == 2
 R == 3
 Acct(k) == 3 + k
-NAcc == 3 + MaxOps
+NAcc0 == 3 + MaxOps
+Dyn(t) == NAcc0 + t          \* the account of native target t
+Fresh == 5
+NAcc == NAcc0 + 5
 Accts == 1..NAcc
+DynAccts == {Dyn(t) : t \in 1..5}
 
 VARIABLES stack,   \* call frames, innermost last
           world,   \* the StateDB
@@ -66,11 +91,13 @@ VARIABLES stack,   \* call frames, innermost last
           prog,    \* the ops chosen so far (the program, in execution order)
           top,     \* parameters of the top-level invocation
           result,  \* what the top-level invocation returned
-          frames   \* ghost: one record per finished (or refused) frame
-vars == <<stack, world, phase, nops, prog, top, result, frames>>
+          frames,  \* ghost: one record per finished (or refused) frame
+          fees,    \* evm.fees: fees charged (or chargeable) and not handed back so far
+          rfees    \* evm.refundFees: fees of failed calls, handed back with the result
+vars == <<stack, world, phase, nops, prog, top, result, frames, fees, rfees>>
 
 NoPend == [slot |-> 0, flag |-> 0, cr |-> FALSE]
-NoResult == [ok |-> FALSE, cls |-> "", left |-> 0, ret |-> 0]
+NoResult == [ok |-> FALSE, cls |-> "", left |-> 0, ret |-> 0, refund |-> 0]
 NoTop == [kind |-> "", gas |-> 0, value |-> 0]
 
 World0(kind) ==
@@ -83,30 +110,55 @@ World0(kind) ==
    logs   |-> <<>>,     \* <<account, topic>>
    dead   |-> {},       \* accounts marked suicided
    code   |-> {},       \* created accounts whose code was stored
+   ex     |-> {},       \* native targets (DynAccts) present in the state
    refund |-> 0]
 
 Init == /\ stack = <<>> /\ world = World0("call") /\ phase = "init" /\ nops = 0
         /\ prog = <<>> /\ top = NoTop /\ result = NoResult /\ frames = <<>>
+        /\ fees = <<>> /\ rfees = <<>>
 
 Top == stack[Len(stack)]
 D == Len(stack)
 
-NewFrame(id, kind, ctx, gas, static, snap, pre) ==
+RECURSIVE SumSeq(_)
+SumSeq(q) == IF q = <<>> THEN 0 ELSE Head(q) + SumSeq(Tail(q))
+
+\* fidx: opCall's startFeesIndex = how many entries of `fees` are older than the CALL
+\*       (-1: the calling op does not touch the fee lists: CALLCODE, DELEGATECALL,
+\*       STATICCALL, CREATE, the top-level invocation)
+\* nat:  -1 = the frame runs assembled code; >= 0 = native code needing that much gas
+NewFrame(id, kind, ctx, gas, static, snap, pre, fidx, own, nat) ==
   [id |-> id, kind |-> kind, ctx |-> ctx, gas |-> gas, sup |-> gas, static |-> static,
    snap |-> snap,   \* StateDB.Snapshot() of the code
    pre  |-> pre,    \* ghost: the world when the calling op started
+   fidx |-> fidx, own |-> own,   \* own: 1 = the first entry from fidx on is the CALL's own fee
+   nat |-> nat,
    n |-> 0, entered |-> FALSE, pend |-> NoPend]
 
 (* ---- the end of a frame ---------------------------------------------- *)
 \* evm.Call & co after run(): on error RevertToSnapshot, and unless the error is
 \* ExecutionReverted the remaining gas is used up; the caller gets `back`.
-End(ok, cls, back, w, retid) ==
-  LET f == Top IN
-  /\ frames' = Append(frames, [id |-> f.id, ok |-> ok, cls |-> cls, sup |-> f.sup, back |-> back])
+\* fs = evm.fees when the frame ends.  opCall, err # nil: the entries from
+\* startFeesIndex on move to refundFees.
+End(ok, cls, back, w, retid, fs) ==
+  LET f == Top
+      moved == IF ~ok /\ f.fidx >= 0 THEN SubSeq(fs, f.fidx + 1, Len(fs)) ELSE <<>>
+      kept  == IF ~ok /\ f.fidx >= 0 THEN SubSeq(fs, 1, f.fidx) ELSE fs
+      rf    == rfees \o moved
+  IN
+  /\ frames' = Append(frames, [id |-> f.id, ok |-> ok, cls |-> cls, sup |-> f.sup, back |-> back,
+                               \* ghost: what this failure makes refundable, and the part of
+                               \* it that was recorded inside the frame (not the CALL's own fee)
+                               ref |-> SumSeq(moved),
+                               inner |-> IF f.fidx >= 0 /\ ~ok /\ Len(fs) > f.fidx
+                                         THEN SumSeq(SubSeq(fs, f.fidx + 1 + f.own, Len(fs))) ELSE 0])
   /\ world' = IF ok THEN w ELSE f.snap
+  /\ fees' = kept /\ rfees' = rf
   /\ IF D = 1
      THEN /\ stack' = <<>> /\ phase' = "done"
-          /\ result' = [ok |-> ok, cls |-> cls, left |-> back, ret |-> retid]
+          \* app/state_transition.go: tx.Gas += vm.RefundFee() / vm.RefundAllFee()
+          /\ result' = [ok |-> ok, cls |-> cls, left |-> back, ret |-> retid,
+                        refund |-> IF ok THEN SumSeq(rf) ELSE SumSeq(kept) + SumSeq(rf)]
      ELSE /\ stack' = [i \in 1..D - 1 |->
                         IF i = D - 1
                         THEN [stack[i] EXCEPT !.gas = @ + back,
@@ -115,51 +167,62 @@ End(ok, cls, back, w, retid) ==
                         ELSE stack[i]]
           /\ UNCHANGED <<phase, result>>
 
-Burn(cls) == End(FALSE, cls, 0, world, 0)
-Reverted(gasLeft, retid) == End(FALSE, "revert", gasLeft, world, retid)
+Burn(cls) == End(FALSE, cls, 0, world, 0, fees)
+BurnF(cls, fs) == End(FALSE, cls, 0, world, 0, fs)
+\* interpreter.Run, !contract.UseGas(cost) with feeSaved: the entry just pushed is popped;
+\* if the frame has more than the cost without the fee (plain), the excess is pushed instead
+BurnOnFeeOp(g, plain) == BurnF("oog", IF g > plain THEN Append(fees, g - plain) ELSE fees)
+Reverted(gasLeft, retid, fs) == End(FALSE, "revert", gasLeft, world, retid, fs)
 \* the code halted without error; a create frame then pays for storing the returned code
-Succeed(w, gasLeft, retid, codeLen) ==
+Succeed(w, gasLeft, retid, codeLen, fs) ==
   IF Top.kind = "create" /\ codeLen > 0
-  THEN IF gasLeft < CDeposit THEN Burn("codestore")
-       ELSE End(TRUE, "ok", gasLeft - CDeposit, [w EXCEPT !.code = @ \cup {Top.ctx}], retid)
-  ELSE End(TRUE, "ok", gasLeft, w, retid)
+  THEN IF gasLeft < CDeposit THEN BurnF("codestore", fs)
+       ELSE End(TRUE, "ok", gasLeft - CDeposit, [w EXCEPT !.code = @ \cup {Top.ctx}], retid, fs)
+  ELSE End(TRUE, "ok", gasLeft, w, retid, fs)
 
-Cont(g, w) == /\ stack' = [stack EXCEPT ![D].gas = g, ![D].n = @ + 1]
-              /\ world' = w /\ UNCHANGED <<phase, result, frames>>
+Cont(g, w, fs) == /\ stack' = [stack EXCEPT ![D].gas = g, ![D].n = @ + 1]
+                  /\ world' = w /\ fees' = fs /\ UNCHANGED <<phase, result, frames, rfees>>
 
 (* ---- the top-level invocation ---------------------------------------- *)
 Start(kind, g, v) ==
   /\ phase = "init"
   /\ top' = [kind |-> kind, gas |-> g, value |-> v]
-  /\ UNCHANGED <<nops, prog>>
+  /\ UNCHANGED <<nops, prog, fees, rfees>>
   /\ LET w0 == World0(kind) IN
      IF kind = "call"
      THEN IF w0.bal[O] < v
           THEN \* evm.Call: ErrInsufficientBalance before anything happens
                /\ world' = w0 /\ stack' = <<>> /\ phase' = "done"
-               /\ result' = [ok |-> FALSE, cls |-> "balance", left |-> g, ret |-> 0]
-               /\ frames' = <<[id |-> 0, ok |-> FALSE, cls |-> "balance", sup |-> g, back |-> g]>>
+               /\ result' = [ok |-> FALSE, cls |-> "balance", left |-> g, ret |-> 0, refund |-> 0]
+               /\ frames' = <<[id |-> 0, ok |-> FALSE, cls |-> "balance", sup |-> g, back |-> g,
+                               ref |-> 0, inner |-> 0]>>
           ELSE /\ world' = [w0 EXCEPT !.bal[O] = @ - v, !.bal[R] = @ + v]
-               /\ stack' = <<NewFrame(0, "call", R, g, FALSE, w0, w0)>>
+               /\ stack' = <<NewFrame(0, "call", R, g, FALSE, w0, w0, -1, 0, -1)>>
                /\ phase' = "run" /\ UNCHANGED <<result, frames>>
      ELSE \* evm.create at depth 0: no balance check, no nonce bump, UnsafeTransfer
           /\ world' = [w0 EXCEPT !.nonce[R] = 1, !.bal[R] = @ + v]
-          /\ stack' = <<NewFrame(0, "create", R, g, FALSE, w0, w0)>>
+          /\ stack' = <<NewFrame(0, "create", R, g, FALSE, w0, w0, -1, 0, -1)>>
           /\ phase' = "run" /\ UNCHANGED <<result, frames>>
 
 (* ---- steps of the running frame -------------------------------------- *)
-Enter == /\ phase = "run" /\ ~Top.entered
+Enter == /\ phase = "run" /\ ~Top.entered /\ Top.nat < 0
          /\ UNCHANGED <<nops, prog, top>>
          /\ IF Top.gas < CFrame THEN Burn("oog")
             ELSE /\ stack' = [stack EXCEPT ![D].gas = @ - CFrame, ![D].entered = TRUE]
-                 /\ UNCHANGED <<world, phase, result, frames>>
+                 /\ UNCHANGED <<world, phase, result, frames, fees, rfees>>
+
+\* run(): RunPrecompiledContract (UseGas(RequiredGas) or ErrOutOfGas) / no code at all
+Native == /\ phase = "run" /\ ~Top.entered /\ Top.nat >= 0
+          /\ UNCHANGED <<nops, prog, top>>
+          /\ IF Top.gas < Top.nat THEN Burn("oog")
+             ELSE Succeed(world, Top.gas - Top.nat, 0, 0, fees)
 
 Ready == phase = "run" /\ Top.entered /\ Top.pend.slot = 0
 MayChoose == Ready /\ Top.n < MaxFrameOps /\ nops < MaxOps
 
 \* the code of the frame ends (STOP)
 EndOfCode == /\ Ready /\ UNCHANGED <<nops, prog, top>>
-             /\ Succeed(world, Top.gas, 0, 0)
+             /\ Succeed(world, Top.gas, 0, 0, fees)
 
 \* the caller's code after CALL* / CREATE: store flag+1 in the marker slot
 Mark == /\ phase = "run" /\ Top.pend.slot # 0
@@ -170,88 +233,121 @@ Mark == /\ phase = "run" /\ Top.pend.slot # 0
               ELSE /\ stack' = [stack EXCEPT ![D].gas = @ - c, ![D].pend = NoPend]
                    /\ world' = IF f.static THEN world
                                ELSE [world EXCEPT !.st = @ \cup {<<f.ctx, f.pend.slot, f.pend.flag + 1>>}]
-                   /\ UNCHANGED <<phase, result, frames>>
+                   /\ UNCHANGED <<phase, result, frames, fees, rfees>>
 
-Rec(op, kind, v, req, cn) ==
-  [id |-> nops + 1, frame |-> Top.id, op |-> op, kind |-> kind, v |-> v, req |-> req, cn |-> cn]
+Rec(op, kind, v, req, cn, tg) ==
+  [id |-> nops + 1, frame |-> Top.id, op |-> op, kind |-> kind, v |-> v, req |-> req, cn |-> cn, tg |-> tg]
 Choose(r) == /\ nops' = nops + 1 /\ prog' = Append(prog, r) /\ UNCHANGED top
 
 \* interpreter.Run: stack check, write protection, gas charge, then execute
 Leaf(op) ==
-  /\ MayChoose /\ Choose(Rec(op, "", 0, 0, 0))
+  /\ MayChoose /\ Choose(Rec(op, "", 0, 0, 0, 0))
   /\ LET f == Top  k == nops + 1  g == f.gas  c == f.ctx IN
      CASE op = "work" ->
-            IF g < CWork THEN Burn("oog") ELSE Cont(g - CWork, world)
+            IF g < CWork THEN Burn("oog") ELSE Cont(g - CWork, world, fees)
        [] op = "sstore" ->
             IF f.static THEN Burn("static") ELSE IF g < CSStore THEN Burn("oog")
-            ELSE Cont(g - CSStore, [world EXCEPT !.st = @ \cup {<<c, k, 1>>}])
+            ELSE Cont(g - CSStore, [world EXCEPT !.st = @ \cup {<<c, k, 1>>}], fees)
        [] op = "log" ->
             IF f.static THEN Burn("static") ELSE IF g < CLog THEN Burn("oog")
-            ELSE Cont(g - CLog, [world EXCEPT !.logs = Append(@, <<c, k>>)])
-       [] op = "xfer" ->   \* opTransferToken, native coin: charged, then reverts if unfunded
-            IF f.static THEN Burn("static") ELSE IF g < CXfer THEN Burn("oog")
-            ELSE IF world.bal[c] < 1 THEN Reverted(g - CXfer, 0)
-            ELSE Cont(g - CXfer, [world EXCEPT !.bal[c] = @ - 1, !.bal[E] = @ + 1])
+            ELSE Cont(g - CLog, [world EXCEPT !.logs = Append(@, <<c, k>>)], fees)
+       [] op = "xfer" ->   \* gasTransferToken (fee) + opTransferToken, native coin:
+                           \* charged, then reverts if unfunded
+            LET fs == Append(fees, CFee) IN
+            IF f.static THEN Burn("static") ELSE IF g < CXfer THEN BurnOnFeeOp(g, CXfer - CFee)
+            ELSE IF world.bal[c] < 1 THEN Reverted(g - CXfer, 0, fs)
+            ELSE Cont(g - CXfer, [world EXCEPT !.bal[c] = @ - 1, !.bal[E] = @ + 1], fs)
        [] op = "tokxfer" ->
             IF f.static THEN Burn("static") ELSE IF g < CTokXfer THEN Burn("oog")
-            ELSE IF world.tok[c] < 1 THEN Reverted(g - CTokXfer, 0)
-            ELSE Cont(g - CTokXfer, [world EXCEPT !.tok[c] = @ - 1, !.tok[E] = @ + 1, !.ent = @ \cup {c, E}])
-       [] op = "selfdestruct" ->   \* gasSuicide + opSuicide + StateDB.Suicide
-            LET cost == CSuicide + (IF world.bal[c] > 0 THEN CSuicideFee ELSE 0)
+            ELSE IF world.tok[c] < 1 THEN Reverted(g - CTokXfer, 0, fees)
+            ELSE Cont(g - CTokXfer, [world EXCEPT !.tok[c] = @ - 1, !.tok[E] = @ + 1, !.ent = @ \cup {c, E}], fees)
+       [] op = "selfdestruct" ->   \* gasSuicide (fee if it holds the native coin) + opSuicide + StateDB.Suicide
+            LET hasFee == world.bal[c] > 0
+                cost == CSuicide + (IF hasFee THEN CSuicideFee ELSE 0)
                 w1 == [world EXCEPT !.bal[E] = @ + world.bal[c], !.bal[c] = 0,
                                     !.tok[E] = @ + world.tok[c], !.tok[c] = 0,
                                     \* Suicide() replaces the token map of c by an empty one
                                     !.ent = (IF world.tok[c] > 0 THEN @ \cup {E} ELSE @) \ {c},
                                     !.dead = @ \cup {c},
                                     !.refund = IF c \in world.dead THEN @ ELSE @ + SuicideRefund]
-            IN IF f.static THEN Burn("static") ELSE IF g < cost THEN Burn("oog")
-               ELSE Succeed(w1, g - cost, 0, 0)
+            IN IF f.static THEN Burn("static")
+               ELSE IF g < cost THEN (IF hasFee THEN BurnOnFeeOp(g, CSuicide) ELSE Burn("oog"))
+               ELSE Succeed(w1, g - cost, 0, 0, IF hasFee THEN Append(fees, CSuicideFee) ELSE fees)
        [] op = "return" ->
-            IF g < CRet THEN Burn("oog") ELSE Succeed(world, g - CRet, k, 32)
+            IF g < CRet THEN Burn("oog") ELSE Succeed(world, g - CRet, k, 32, fees)
        [] op = "revert" ->
-            IF g < CRevert THEN Burn("oog") ELSE Reverted(g - CRevert, k)
+            IF g < CRevert THEN Burn("oog") ELSE Reverted(g - CRevert, k, fees)
        [] op = "invalid" -> Burn("invalid")
        [] op = "loop" -> Burn("oog")
 
+\* StateDB.Empty for a native target (nonce 0 and no code by construction)
+EmptyAcct(w, a) == a \in DynAccts /\ (a \notin w.ex \/ w.bal[a] = 0)
+
 \* gasCall*/callGas + opCall/opCallCode/opDelegateCall/opStaticCall + evm.Call & co
-Call(kind, v, req) ==
-  /\ MayChoose /\ D < MaxDepth /\ Choose(Rec("call", kind, v, req, 0))
+\* tg = 0: the callee is the contract Acct(k) running a child frame of the program;
+\* tg in 1..5: a native target that may not exist yet
+Call(kind, v, req, tg) ==
+  /\ MayChoose /\ (IF tg = 0 THEN D < MaxDepth ELSE D <= MaxDepth)
+  /\ Choose(Rec("call", kind, v, req, 0, tg))
   /\ LET f == Top  k == nops + 1
          hasV == v > 0
+         callee == IF tg = 0 THEN Acct(k) ELSE Dyn(tg)
+         hasFee == kind = "call" /\ hasV                       \* gasCall: gasFee(...) > 0
          pre == CCallPre(kind, v)
+                + (IF kind = "call" /\ hasV /\ EmptyAcct(world, callee) THEN CNewAcct ELSE 0)
          avail == f.gas - pre
          cap == avail - (avail \div 64)
          temp == IF req = Huge \/ cap < req THEN cap ELSE req
          cgas == temp + (IF hasV THEN Stipend ELSE 0)
-         callee == Acct(k)
-         Refused(cls) ==   \* the callee never runs; all the gas comes back
+         fs == IF hasFee THEN Append(fees, CFee) ELSE fees
+         own == IF hasFee THEN 1 ELSE 0
+         fidx == IF kind = "call" THEN Len(fees) ELSE -1        \* opCall: startFeesIndex
+         Refused(cls) ==   \* the callee never runs; all the gas comes back; opCall: err # nil
            /\ stack' = [stack EXCEPT ![D].gas = (avail - temp) + cgas, ![D].n = @ + 1,
                                      ![D].pend = [slot |-> k, flag |-> 0, cr |-> FALSE]]
-           /\ frames' = Append(frames, [id |-> k, ok |-> FALSE, cls |-> cls, sup |-> cgas, back |-> cgas])
+           /\ frames' = Append(frames, [id |-> k, ok |-> FALSE, cls |-> cls, sup |-> cgas, back |-> cgas,
+                                        ref |-> IF hasFee THEN CFee ELSE 0, inner |-> 0])
+           /\ fees' = fees /\ rfees' = IF hasFee THEN Append(rfees, CFee) ELSE rfees
            /\ UNCHANGED <<world, phase, result>>
+         NoAccount ==      \* evm.Call: "calling a non existing account, don't do anything"
+           /\ stack' = [stack EXCEPT ![D].gas = (avail - temp) + cgas, ![D].n = @ + 1,
+                                     ![D].pend = [slot |-> k, flag |-> 1, cr |-> FALSE]]
+           /\ frames' = Append(frames, [id |-> k, ok |-> TRUE, cls |-> "noacct", sup |-> cgas, back |-> cgas,
+                                        ref |-> 0, inner |-> 0])
+           /\ UNCHANGED <<world, phase, result, fees, rfees>>
      IN IF f.static /\ kind = "call" /\ hasV THEN Burn("static")
-        ELSE IF f.gas < pre THEN Burn("oog")
+        ELSE IF f.gas < pre
+             THEN \* callGas wraps around (availableGas - base below zero): the gas for the
+                  \* callee becomes the request itself (or an absurd amount for Huge), the
+                  \* frame cannot pay; with a fee the excess over the cost without it stays
+                  IF hasFee /\ req # Huge THEN BurnOnFeeOp(f.gas, pre - CFee + req)
+                  ELSE Burn("oog")
         ELSE IF D > DepthLimit THEN Refused("depth")
         ELSE IF kind \in {"call", "callcode"} /\ world.bal[f.ctx] < v THEN Refused("balance")
-        ELSE LET w1 == IF kind = "call"
-                       THEN [world EXCEPT !.bal[f.ctx] = @ - v, !.bal[callee] = @ + v]
+        ELSE IF tg = Fresh /\ kind = "call" /\ ~hasV /\ callee \notin world.ex THEN NoAccount
+        ELSE LET \* evm.Call: Snapshot(); if !Exist(addr) CreateAccount(addr); Transfer
+                 w1 == IF kind = "call"
+                       THEN [world EXCEPT !.bal[f.ctx] = @ - v, !.bal[callee] = @ + v,
+                                          !.ex = IF tg = 0 THEN @ ELSE @ \cup {callee}]
                        ELSE world
                  ctx == IF kind \in {"call", "static"} THEN callee ELSE f.ctx
+                 nat == IF tg = 0 THEN -1 ELSE IF tg = Fresh THEN 0 ELSE CPc(tg)
              IN /\ stack' = Append([stack EXCEPT ![D].gas = avail - temp, ![D].n = @ + 1],
-                                   NewFrame(k, kind, ctx, cgas, f.static \/ kind = "static", world, world))
-                /\ world' = w1 /\ UNCHANGED <<phase, result, frames>>
+                                   NewFrame(k, kind, ctx, cgas, f.static \/ kind = "static", world, world, fidx, own, nat))
+                /\ world' = w1 /\ fees' = fs /\ UNCHANGED <<phase, result, frames, rfees>>
 
 \* gasCreate + opCreate + evm.create (depth > 0)
 Create(v) ==
-  /\ MayChoose /\ D < MaxDepth /\ Choose(Rec("create", "create", v, 0, world.nonce[Top.ctx]))
+  /\ MayChoose /\ D < MaxDepth /\ Choose(Rec("create", "create", v, 0, world.nonce[Top.ctx], 0))
   /\ LET f == Top  k == nops + 1
          cgas == f.gas - CCreatePre     \* everything left goes to the init frame
          a == Acct(k)
          Refused(cls) ==
            /\ stack' = [stack EXCEPT ![D].gas = cgas, ![D].n = @ + 1,
                                      ![D].pend = [slot |-> k, flag |-> 0, cr |-> TRUE]]
-           /\ frames' = Append(frames, [id |-> k, ok |-> FALSE, cls |-> cls, sup |-> cgas, back |-> cgas])
-           /\ UNCHANGED <<world, phase, result>>
+           /\ frames' = Append(frames, [id |-> k, ok |-> FALSE, cls |-> cls, sup |-> cgas, back |-> cgas,
+                                        ref |-> 0, inner |-> 0])
+           /\ UNCHANGED <<world, phase, result, fees, rfees>>
      IN IF f.static THEN Burn("static")
         ELSE IF f.gas < CCreatePre THEN Burn("oog")
         ELSE IF D > DepthLimit THEN Refused("depth")
@@ -259,14 +355,24 @@ Create(v) ==
         ELSE LET w0 == [world EXCEPT !.nonce[f.ctx] = @ + 1]   \* before the snapshot
                  w1 == [w0 EXCEPT !.nonce[a] = 1, !.bal[f.ctx] = @ - v, !.bal[a] = @ + v]
              IN /\ stack' = Append([stack EXCEPT ![D].gas = 0, ![D].n = @ + 1],
-                                   NewFrame(k, "create", a, cgas, FALSE, w0, world))
-                /\ world' = w1 /\ UNCHANGED <<phase, result, frames>>
+                                   NewFrame(k, "create", a, cgas, FALSE, w0, world, -1, 0, -1))
+                /\ world' = w1 /\ UNCHANGED <<phase, result, frames, fees, rfees>>
+
+\* gas requests for a native target: exactly enough / one unit short of what the
+\* native code needs (the stipend of a value call counted in), and "all"
+NatReqs(tg, v) ==
+  LET need == IF tg = Fresh THEN 0 ELSE CPc(tg)
+      stip == IF v > 0 THEN Stipend ELSE 0
+  IN {Huge} \cup (IF need > stip THEN {need - stip - 1, need - stip} ELSE {0})
 
 Next == \/ \E kind \in TopKinds, g \in TopGas, v \in TopValues : Start(kind, g, v)
-        \/ Enter \/ Mark \/ EndOfCode
+        \/ Enter \/ Native \/ Mark \/ EndOfCode
         \/ \E op \in LeafOps : Leaf(op)
         \/ \E kind \in CallKinds, req \in CallReqs :
-             \E v \in (IF kind \in {"call", "callcode"} THEN CallValues ELSE {0}) : Call(kind, v, req)
+             \E v \in (IF kind \in {"call", "callcode"} THEN CallValues ELSE {0}) : Call(kind, v, req, 0)
+        \/ \E kind \in CallKinds, tg \in NatTargets :
+             \E v \in (IF kind \in {"call", "callcode"} THEN CallValues ELSE {0}) :
+               \E req \in NatReqs(tg, v) : Call(kind, v, req, tg)
         \/ \E v \in CreateValues : Create(v)
 
 Spec == Init /\ [][Next]_vars
@@ -280,15 +386,23 @@ GasOn(s) == IF s = <<>> THEN 0 ELSE Head(s).gas + GasOn(Tail(s))
 TypeOK == /\ phase \in {"init", "run", "done"}
           /\ \A i \in 1..D : stack[i].gas >= 0
           /\ \A a \in Accts : world.bal[a] >= 0 /\ world.tok[a] >= 0
+          /\ \A i \in 1..Len(fees) : fees[i] > 0
+          /\ \A i \in 1..Len(rfees) : rfees[i] > 0
+          /\ world.ex \subseteq DynAccts
+          /\ \A a \in DynAccts \ world.ex : world.bal[a] = 0 /\ world.tok[a] = 0
 
-\* the gas in the machine never exceeds what the invocation was given; every frame
-\* hands back at most what it was supplied with; a failure other than a revert (or a
-\* call that was refused before the callee ran) hands back nothing.
+\* the gas in the machine, INCLUDING every fee that may still be handed back, never
+\* exceeds what the invocation was given; what the caller of the top frame finally gets
+\* (left-over gas + refunded fees) is at most the gas supplied; every frame hands back
+\* at most what it was supplied with, the fee entries recorded inside it included; a
+\* failure other than a revert (or a call that was refused before the callee ran) hands
+\* back no gas.
 GasNeverGrows ==
-  /\ phase = "run" => GasOn(stack) <= top.gas
-  /\ phase = "done" => result.left <= top.gas
+  /\ phase = "run" => GasOn(stack) + SumSeq(fees) + SumSeq(rfees) <= top.gas
+  /\ phase = "done" => result.left + result.refund <= top.gas
   /\ \A i \in 1..Len(frames) :
        /\ frames[i].back <= frames[i].sup
+       /\ frames[i].back + frames[i].inner <= frames[i].sup
        /\ (~frames[i].ok /\ frames[i].cls \notin {"revert", "depth", "balance"}) => frames[i].back = 0
 
 \* value is neither created nor lost (a top-level create mints its endowment)
@@ -301,7 +415,8 @@ Finished == Len(frames') = Len(frames) + 1
 LastRec == frames'[Len(frames')]
 Popped == phase = "run" /\ Len(stack') = D - 1
 \* a frame that fails leaves the world as it was when the calling op started (for a
-\* nested CREATE: except the creator's nonce, which the CREATE op itself bumps); a
+\* nested CREATE: except the creator's nonce, which the CREATE op itself bumps) - this
+\* includes the account the call itself created for a target that did not exist; a
 \* call that is refused (depth, balance) changes nothing at all.
 FrameAtomic ==
   [][ (Finished /\ ~LastRec.ok) =>
@@ -333,7 +448,18 @@ TokCallReqs == {1200000}
 BigTopGas == {GasBig, 1, 600000} \cup Edge1(CSStore)
 BigCallReqs == {Huge, 0, 2300} \cup Edge1(CSStore)
 
+\* fee instance: budgets around "cannot pay the cost without the fee" / "can pay part of
+\* the fee" / "can pay everything" for each fee-carrying first op of a frame
+FeeEdge(plain, fee) == {CFrame + plain - 1, CFrame + plain, CFrame + plain + 1,
+                        CFrame + plain + fee - 1, CFrame + plain + fee}
+FeeReq == 50000
+FeeTopGas == {GasBig} \cup FeeEdge(CXfer - CFee, CFee) \cup FeeEdge(CSuicide, CSuicideFee)
+             \cup FeeEdge(CCallV - CFee + FeeReq, CFee)
+FeeCallReqs == {Huge, FeeReq} \cup FeeEdge(CXfer - CFee, CFee) \cup FeeEdge(CCallV - CFee + FeeReq, CFee)
+NatTopGas == {GasBig, CFrame + CCall0 + 3000}
+
 (* ---- export for the replay harness ----------------------------------- *)
-Export == [top |-> top, ops |-> prog, result |-> result, frames |-> frames, world |-> world]
+Export == [top |-> top, ops |-> prog, result |-> result, frames |-> frames, world |-> world,
+           fees |-> fees, rfees |-> rfees]
 Edge == (phase' = "done" /\ phase # "done") => PrintT(ToJson(Export'))
 =============================================================================
